@@ -359,7 +359,11 @@ def compact_line(spec, bank, i, W):
     lo, hi = frac(lo_hz) / rate, frac(hi_hz) / rate
     arrays = 1 if W <= ARRAYS_MAX_W else 0
     line = "compact %s %d %d %s %s %d" % (spec["kind"], W, 1 if spec["analytic"] else 0, fs(lo), fs(hi), arrays)
-    in_hyp = 0 <= lo <= hi <= Fraction(1, 2)
+    # CompactOK of Lemmas/BankIndex.lean (exact 0 <= lo <= hi <= 1/2, with the slack float vertices need)
+    in_hyp = (W >= 2 and -1 < W * lo and 0 <= hi and lo <= hi and lo <= Fraction(1, 2)
+              and W * (hi - Fraction(1, 2)) < Fraction(1, 2))
+    if in_hyp and not (0 <= lo and hi <= Fraction(1, 2)):
+        in_hyp = "slack"
     return line, lo, hi, in_hyp
 
 
@@ -420,7 +424,7 @@ def periodic_lines(ctx, spec, bank, i, W, lay, eps):
 def gen_banks(ctx):
     r = ctx.rng
     specs = [dict(s) for s in FIXED_SPECS]
-    n = ctx.scale(110, 1500)
+    n = ctx.scale(260, 3000)
     while len(specs) < n:
         specs.append(random_spec(r))
     return specs
@@ -475,6 +479,8 @@ def run(ctx, driver):
                     line, lo, hi, in_hyp = compact_line(spec, bank, i, W)
                     if not in_hyp:
                         ctx.gap_cases += 1
+                    elif in_hyp == "slack":
+                        ctx.count("vertex_roundoff_within_CompactOK")
                     if len(obs["tr"]) == 0:
                         ctx.count("empty_truncated")
                     compact_jobs.append((case, line, obs, lo, hi, W))
